@@ -170,3 +170,15 @@ Proof.
   - simpl. apply perm_swap.
   - repeat constructor.
 Qed.
+
+(* discarding AddJob's result makes error propagation depend on the pool size *)
+Lemma addjob_ignored_pool_dependent :
+  exists (tr1 tr2 : list (jevent Z)) (a : Z),
+    map snd tr1 = map snd tr2 /\ (exists i, In (i, JErr) tr1) /\
+    step_addjob_result_ignored Z Z.add 0%Z true 1 [mkThr false 0%Z] tr1 = SOk a /\
+    step_addjob_result_ignored Z Z.add 0%Z true 2 [mkThr false 0%Z; mkThr false 0%Z] tr2 = SErr.
+Proof.
+  exists [(0%nat, JOk 5%Z); (0%nat, JErr); (0%nat, JOk 7%Z)],
+         [(0%nat, JOk 5%Z); (1%nat, JErr); (1%nat, JOk 7%Z)], 12%Z.
+  repeat split; try reflexivity. exists 0%nat. simpl. auto.
+Qed.
